@@ -812,6 +812,40 @@ func registerExternals(m *Machine) {
 		m.Scratch["lastReplace"] = []value{a[0], a[1], a[2], r}
 		return r
 	}
+	// other replacement / search entry points: the host's answer on concrete operands, an
+	// uninterpreted result of their own otherwise (never identified with ReplaceAllString)
+	for _, nm := range []string{"ReplaceAllLiteralString", "FindString"} {
+		nm := nm
+		e["(*regexp.Regexp)."+nm] = func(m *Machine, fr *frame, a []value) value {
+			re := hostRe(m, a[0])
+			allConc := re.re != nil
+			for _, x := range a[1:] {
+				if isSym(x) {
+					allConc = false
+				}
+			}
+			if allConc {
+				if nm == "FindString" {
+					return re.re.FindString(a[1].(string))
+				}
+				return re.re.ReplaceAllLiteralString(a[1].(string), a[2].(string))
+			}
+			key := nm + ":" + re.key
+			for _, x := range a[1:] {
+				key += "|" + strKey(x)
+			}
+			memo := memoOf(m)
+			if r, ok := memo[key]; ok {
+				return r
+			}
+			m.Stubs["havoc:regexp."+nm]++
+			n, _ := m.Scratch["havocN"].(int)
+			m.Scratch["havocN"] = n + 1
+			r := m.inputStr(fmt.Sprintf("havoc#%s#%d", nm, n), 2, "xmlascii")
+			memo[key] = r
+			return r
+		}
+	}
 	e["(*regexp.Regexp).String"] = func(m *Machine, fr *frame, a []value) value {
 		re := hostRe(m, a[0])
 		if re.re != nil {
